@@ -230,7 +230,9 @@ class IoWorld(World):
         sep = r.choice([",", ";"]) if use_t else r.choice([",", ";", " "])
         path = self._path(r, s, "f", ".csv")
         st = {"op": "write_csv", "path": path, "track": self._gen_track(r, kind), "ids": ids,
-              "sep": sep, "h": 1 if r.random() < 0.03 else 0}
+              "sep": sep, "h": 1 if r.random() < 0.15 else 0}
+        if r.random() < 0.25:
+            st["wapi"] = "tocsv"
         f = self._fault(r, WRITE_FAULTS)
         if f:
             st["fault"] = f
@@ -296,7 +298,7 @@ class IoWorld(World):
     def _gen_net(self, r, s, q):
         path = self._path(r, s, "n", ".csv", 2)
         st = {"op": "write_network", "path": path, "net": self._gen_net_spec(r),
-              "sep": r.choice([",", ";"]), "h": 0 if r.random() < 0.03 else 1}
+              "sep": r.choice([",", ";"]), "h": 0 if r.random() < 0.3 else 1}
         f = self._fault(r, WRITE_FAULTS)
         if f:
             st["fault"] = f
@@ -520,8 +522,17 @@ class IoWorld(World):
         self._outcome = "ok"
         if st["path"] in self.cat and self.cat[st["path"]]["state"] == "acked":
             self.probe("overwrite_acked_file")
-        rv, exc, fired = self._io_call(st, TrackWriter.writeToFile, track, st["path"], ids[0], ids[1],
-                                       ids[2], ids[3], st["sep"], st.get("h", 0))
+        if st.get("wapi") == "tocsv":
+            from tracklib.io.track_format import TrackFormat
+            tf, exc0 = self.call(TrackFormat, {"ext": "CSV", "id_E": ids[0], "id_N": ids[1], "id_U": ids[2],
+                                               "id_T": ids[3], "separator": st["sep"], "header": st.get("h", 0)})
+            if exc0 is not None:
+                self.fail("C13", "trackformat.raised", "TrackFormat(dict) raised %r" % (exc0,))
+                return "raised"
+            rv, exc, fired = self._io_call(st, TrackWriter.writeToCsv, track, st["path"], tf)
+        else:
+            rv, exc, fired = self._io_call(st, TrackWriter.writeToFile, track, st["path"], ids[0], ids[1],
+                                           ids[2], ids[3], st["sep"], st.get("h", 0))
         if self._write_outcome(st, exc, fired, [st["path"]], "csv.write.raised"):
             self.cat[st["path"]] = {"type": "csv", "state": "acked", "track": st["track"], "ids": ids,
                                     "sep": st["sep"], "h": st.get("h", 0),
